@@ -117,6 +117,14 @@ func (r *MemoryModelRegistry) RegisterModels(ctx context.Context, endpointURL st
 	default:
 	}
 
+	// Validate the whole listing before touching anything: a rejected update must leave the
+	// previous attribution (per-endpoint listing AND model index) exactly as it was
+	for _, model := range models {
+		if model != nil && model.Name == "" {
+			return domain.NewModelRegistryError("register_models", endpointURL, model.Name, fmt.Errorf("model name cannot be empty"))
+		}
+	}
+
 	r.mu.Lock()
 	defer r.mu.Unlock()
 
@@ -133,10 +141,6 @@ func (r *MemoryModelRegistry) RegisterModels(ctx context.Context, endpointURL st
 		if model == nil {
 			continue // Skip nil models
 		}
-		if model.Name == "" {
-			return domain.NewModelRegistryError("register_models", endpointURL, model.Name, fmt.Errorf("model name cannot be empty"))
-		}
-
 		modelsCopy = append(modelsCopy, &domain.ModelInfo{
 			Name:        model.Name,
 			Size:        model.Size,
